@@ -762,6 +762,16 @@ func (tr *intTr) lazy1(t *Term) *Poly {
 		if t.p2 == 0 {
 			return tr.lazy(t.args[0]) // truncation: same polynomial, smaller modulus
 		}
+		// the top bit of a value whose deferred polynomial lies in the signed range is the borrow indicator
+		// [P < 0] = -floor(P / 2^(w-1))   (shares its division atom with the low part P mod 2^(w-1))
+		if aw := t.args[0].sort.W; t.p1 == aw-1 && t.p2 == aw-1 {
+			half := pow2(aw - 1)
+			if l := tr.lazy(t.args[0]); tr.within(l, new(big.Int).Neg(half), new(big.Int).Sub(half, big1)) && !tr.within(l, big0, new(big.Int).Sub(half, big1)) {
+				r := pNeg(tr.divPoly(l, half))
+				r.iv = ivMeet(r.iv, kiv(big0, big1))
+				return r
+			}
+		}
 		return tr.divPoly(tr.canon(t.args[0]), pow2(t.p2))
 	case OZext:
 		return tr.canon(t.args[0])
